@@ -212,6 +212,14 @@ func (c *Conn) waitCloseHandshake() error {
 	}
 	defer c.readMu.unlock()
 
+	// A concurrent reader (e.g. CloseRead) may have read the peer's close frame
+	// and released readMu just before closing the connection. There is nothing
+	// left to wait for then, and reading on would only observe the peer
+	// hanging up.
+	if atomic.LoadInt32(&c.readClose) == 1 {
+		return net.ErrClosed
+	}
+
 	err = c.discardPayload(ctx, c.msgReader.payloadLength)
 	if err != nil {
 		return err
